@@ -293,6 +293,40 @@ def run_shard(ctx):
                               f"the bytes parse from a byte string but not from a raw stream that returns at most {chunk} "
                               f"bytes per read: {type(e).__name__}: {str(e)[:100]}",
                               {"label": label, "hex": data.hex(), "sequence": [vname, "parse"]})
+        if not big and int(ch[:2], 16) % 4 == 0:
+            # the same questions while the process's loader functions are replaced: fickling's own safe ML environment,
+            # then another library's restricted pickle.loads / pickle.load (an answer is about the bytes, whatever
+            # protects unpickling at that moment)
+            import pickle as _pk
+            import _pickle as _cpk
+            import fickling.hook as _hook
+            saved = (_pk.load, _pk.loads, _cpk.load, _cpk.loads)
+
+            def _refusing(*a, **k):
+                raise _pk.UnpicklingError("vp: unpickling is disabled in this process")
+            for hname in ("ml-environment-armed", "foreign-restricted-loads"):
+                try:
+                    if hname == "ml-environment-armed":
+                        _hook.activate_safe_ml_environment()
+                    else:
+                        _pk.load = _pk.loads = _refusing
+                    pv = f.Pickled.load(data)
+                    for q in ("check_safety", "unparse", "to_dict", "properties"):
+                        got = answer(f, analysis, tracing, pv, q)
+                        agg.count("answers_compared")
+                        agg.count("answers_while_loaders_replaced")
+                        if got != base[q]:
+                            agg.violation(f"depends-on-process-state:{q}:{hname}",
+                                          f"'{q}' of the same bytes differs while {hname}",
+                                          {"label": label, "hex": data.hex(), "sequence": [hname, q],
+                                           "first": str(base[q])[:300], "later": str(got)[:300]})
+                            break
+                finally:
+                    try:
+                        _hook.remove_hook()
+                    except Exception:
+                        pass
+                    _pk.load, _pk.loads, _cpk.load, _cpk.loads = saved
         for vname, pv in variants:
             for q in ("check_safety", "unparse", "to_dict", "dumps"):
                 got = answer(f, analysis, tracing, pv, q)
